@@ -1074,6 +1074,7 @@ struct Totals {
     outcomes: BTreeMap<String, u64>,
     violations: Violations,
     per_store: serde_json::Map<String, Value>,
+    samples: Vec<Value>,
 }
 
 fn absorb<E: Serialize>(t: &mut Totals, name: &str, alphabet: usize, r: Result_<E>) {
@@ -1082,6 +1083,9 @@ fn absorb<E: Serialize>(t: &mut Totals, name: &str, alphabet: usize, r: Result_<
     t.events += r.events_executed;
     t.exhaustive &= r.exhaustive;
     let saturated = r.frontier_sizes.last() == Some(&0);
+    if let Some(h) = r.samples.first() {
+        t.samples.push(json!({"store": name, "history": h}));
+    }
     t.per_store.insert(
         name.into(),
         json!({"states": r.states, "transitions": r.transitions, "completed_depth": r.completed_depth, "requested_depth": r.requested_depth, "frontier_sizes": r.frontier_sizes,
@@ -1122,12 +1126,19 @@ fn main() {
     let mut t = Totals { exhaustive: true, ..Default::default() };
     // Depth bounds: the small stores are explored until no new state appears (the bound is only a
     // safety net); the larger ones to the stated depth.
-    let (rd, sd, fd, pd, gd) = if thorough { (5, 12, 5, 12, 4) } else { (6, 12, 12, 12, 3) };
-    let wall = if thorough { 200 } else { 25 };
+    let (rd, sd, fd, pd, gd) = if thorough { (4, 12, 12, 12, 4) } else { (6, 12, 12, 12, 3) };
+    // Wall caps are a safety net only (a capped run is reported as not exhaustive).
+    let wall = if thorough { 900 } else { 120 };
 
     let sp = RSpace { nodes: r_nodes };
     let r = explore::explore("C24", move || RSys::new(sp), Bounds::new(rd, 0).wall_secs(wall));
     absorb(&mut t, "routing", RSys::new(sp).enabled().len(), r);
+    if thorough {
+        // The two-node table of the quick tier, explored until no new state appears.
+        let sp = RSpace { nodes: 2 };
+        let r = explore::explore("C24", move || RSys::new(sp), Bounds::new(6, 0).wall_secs(wall));
+        absorb(&mut t, "routing-two-nodes-closed", RSys::new(sp).enabled().len(), r);
+    }
     let r = explore::explore("C24", move || SSys::new(s_nodes), Bounds::new(sd, 0).wall_secs(wall));
     absorb(&mut t, "sync-status", SSys::new(s_nodes).enabled().len(), r);
     let r = explore::explore("C24", move || FSys::new(f_keys), Bounds::new(fd, 0).wall_secs(wall));
@@ -1157,7 +1168,7 @@ fn main() {
                policy: seed/unseed/set-seed-policy/unblock-rid/follow(alias none|alice|bob)/unfollow/set-follow-policy/unblock-nid; gossip: announced(node|inventory|refs x ts x 2 contents)/prune/set_relay/relays); \
                a state is (full dump of the store through its query API, model); replay-from-scratch on a fresh in-memory database"),
     );
-    cov.insert("samples".into(), json!([]));
+    cov.insert("samples".into(), json!(t.samples));
     cov.insert("strict_policy_intent".into(), json!(strict));
     ctx.finish(
         cov,
